@@ -109,9 +109,14 @@ func (am AppModule) OnRecvPacket(
 
 	acknowledgement := packettypes.NewResultAcknowledgement([]byte{byte(1)})
 
-	err := am.keeper.OnRecvPacket(ctx, packet, data)
+	// the receive logic runs on a branch of the state that is written back only on success: an error
+	// acknowledgement must not leave the writes made before the failure (class trace, voucher class, minted units)
+	cacheCtx, writeCache := ctx.CacheContext()
+	err := am.keeper.OnRecvPacket(cacheCtx, packet, data)
 	if err != nil {
 		acknowledgement = packettypes.NewErrorAcknowledgement(err.Error())
+	} else {
+		writeCache()
 	}
 
 	ctx.EventManager().EmitEvent(
